@@ -242,9 +242,11 @@ def run_box(ctx, box, launches_spec, jobs, deadline, case_timeout, launch_timeou
             # the points at which the model predicts the known finding run alone (one launch each), interleaved with the others
             L += predicted_launches()
             predicted_all = []
+            if box.tier == 'thorough':
+                L.sort(key=lambda l: (l.n, 0 if l.meta.get('predicted') else 1, -len(l.meta['cases'])))
         if deadline is not None:
             for l in L:       # nothing outlives the deadline by more than a minute: a killed launch still reports the cases it completed
-                l.timeout = max(20, min(l.timeout or launch_timeout, deadline + 60 - time.time()))
+                l.kill_at = deadline + 60
         results, skip = mp.run_box(L, box.root, jobs=jobs, timeout=launch_timeout, deadline=deadline, confirm=False, max_ranks=48)
         for sk in skip:
             box.skipped += len(sk.meta['cases'])
